@@ -359,10 +359,62 @@ def replay_live(inputs: dict[str, Any], ob: Any) -> ReplayResult:
     return ReplayResult(bad, f"make_wsgi_app(prefix={prefix!r}, enable_health_endpoint={health}, oauth={oauth}): " + detail)
 
 
+def search_live(ob: Any, seed: int) -> Any:
+    """Native hunt on real apps (real make_wsgi_app, falcon test client, an authenticator that rejects everything):
+    short request *sequences* on the same app, because an exemption decision may depend on earlier requests.
+    Every request that is not on a bypass path must be answered 401 and must run no service code."""
+    import falcon.testing
+
+    ran: list[str] = []
+
+    class _CountingImpl:
+        def u(self) -> int:
+            ran.append("u")
+            return 1
+
+        def health(self) -> int:
+            ran.append("health")
+            return 1
+
+        def healthz(self) -> int:
+            ran.append("healthz")
+            return 1
+
+    class _P2(Protocol):
+        def u(self) -> int: ...
+        def health(self) -> int: ...
+        def healthz(self) -> int: ...
+
+    def deny(req: Any) -> Any:
+        raise ValueError("denied")
+
+    for prefix, health, oauth in CONFIGS:
+        with warnings.catch_warnings():
+            warnings.simplefilter("ignore")
+            app = fac.make_wsgi_app(RpcServer(_P2, _CountingImpl()), prefix=prefix, authenticate=deny, token_key=b"k" * 32, enable_health_endpoint=health, oauth_resource_metadata=_metadata(prefix, oauth))
+        client = falcon.testing.TestClient(app)
+        paths = [f"{prefix}/u", f"{prefix}/u/init", f"{prefix}/u/exchange", f"{prefix}/__describe__", f"{prefix}/health", f"{prefix}/healthz", f"{prefix}/health/init"]
+        for path in paths:
+            for first in (None, "OPTIONS", "GET", "HEAD"):
+                seq = ([(first, path)] if first else []) + [("POST", path)]
+                for verb, pth in seq:
+                    ran.clear()
+                    r = client.simulate_request(verb, pth, headers={"Content-Type": "application/vnd.apache.arrow.stream"}, body=b"")
+                    if py_spec_bypass(verb, pth, prefix, health, oauth == "pkce"):
+                        continue
+                    if r.status_code != 401 or ran:
+                        return (
+                            {"config": CONFIGS.index((prefix, health, oauth)), "sequence": seq},
+                            ReplayResult(True, f"make_wsgi_app(prefix={prefix!r}, enable_health_endpoint={health}, oauth={oauth}), authenticator rejects everything; request sequence {seq}: {verb} {pth} answered {r.status_code} (service code ran: {ran}) instead of 401"),
+                        )
+    return None
+
+
 @unit(
     "C20.O1/O2 process_request with the exempt list of the live make_wsgi_app middleware (14 configurations)",
     targets=["vgi_rpc/http/server/_middleware.py::_AuthMiddleware.process_request", "vgi_rpc/http/server/_factory.py::make_wsgi_app (executed natively)"],
     replay=replay_live,
+    search=search_live,
     min_obligations=200,
     max_paths=6000,
 )
